@@ -58,6 +58,8 @@ def may_raise_implicitly(node):
     if isinstance(node, (ast.FunctionDef, ast.AsyncFunctionDef, ast.ClassDef)):
         return bool(node.decorator_list)
     for sub in walk_expr(node):
+        if isinstance(sub, ast.Subscript) and isinstance(sub.slice, ast.Slice) and isinstance(sub.ctx, ast.Load):
+            continue        # reading a slice of a builtin sequence (x[a:], x[:]) never raises; indexing can
         if isinstance(sub, (ast.Call, ast.Yield, ast.YieldFrom, ast.Await, ast.Subscript)):
             return True
         if isinstance(sub, ast.BinOp) and isinstance(sub.op, ast.Mod):
@@ -350,15 +352,31 @@ class CFG(object):
                         else:
                             kd.pop(t.id, None)
             only = None
+            def _truth(v):
+                return v[1] if isinstance(v, tuple) else bool(v)
             if nd.kind == "test" and isinstance(nd.ast, ast.Name) and nd.ast.id in kd:
-                only = "T" if kd[nd.ast.id] else "F"
+                only = "T" if _truth(kd[nd.ast.id]) else "F"
             elif nd.kind == "test" and kd:
                 from . import q as _q
                 k_, s_, pos_ = _q.atom_test(nd.ast)
-                if s_ in kd and k_ in ("truth", "isnone"):
-                    val = bool(kd[s_]) if k_ == "truth" else (kd[s_] is None)
-                    only = "T" if val == pos_ else "F"
-            nk = tuple(sorted(kd.items()))
+                if isinstance(s_, str) and s_ in kd and k_ == "truth":
+                    only = "T" if _truth(kd[s_]) == pos_ else "F"
+                elif isinstance(s_, str) and s_ in kd and k_ == "isnone":
+                    v_ = kd[s_]
+                    if not isinstance(v_, tuple):
+                        only = "T" if (v_ is None) == pos_ else "F"
+                    elif v_[1]:                       # learned truthy: certainly not None
+                        only = "T" if (False == pos_) else "F"
+            # a test of a flag whose value is not known yet: both edges are possible, and each one fixes the flag's truth for the
+            # rest of the path (the local is stable until it is assigned again) - two tests of one local always agree
+            learn = None
+            if only is None and nd.kind == "test":
+                e_, pos_ = nd.ast, True
+                while isinstance(e_, ast.UnaryOp) and isinstance(e_.op, ast.Not):
+                    e_, pos_ = e_.operand, not pos_
+                if isinstance(e_, ast.Name) and e_.id in flags and e_.id not in kd:
+                    learn = (e_.id, pos_)
+            nk = tuple(sorted(kd.items(), key=lambda kv: kv[0]))
             for e in self.succ[u]:
                 if not self.edge_ok(e, mode):
                     continue
@@ -368,7 +386,12 @@ class CFG(object):
                     continue
                 if e.dst in cut:
                     continue
-                nxt = (e.dst, nk)
+                nk_e = nk
+                if learn is not None and e.label in ("T", "F"):
+                    kd2 = dict(kd)
+                    kd2[learn[0]] = ("learned", (e.label == "T") == learn[1])
+                    nk_e = tuple(sorted(kd2.items(), key=lambda kv: kv[0]))
+                nxt = (e.dst, nk_e)
                 if nxt in parent:
                     continue
                 parent[nxt] = cur
